@@ -5,6 +5,9 @@ package rdb
 //vf:use compact
 //vf:job C12 quick VF_C12_DumpRoundTrip kind=0..4 n=0..2
 //vf:job C12 quick VF_C12_IntStrings len=1..3
+//vf:job C12 quick VF_C12_Retained kind=0..3 kind2=0 n=1
+//vf:job C12 quick VF_C12_Retained kind=0 kind2=1..3 n=1
+//vf:job C12 thorough VF_C12_Retained kind=1..4 kind2=1..3 n=1
 //vf:job C12 quick VF_C12_Compact t=0..7 n=1
 //vf:job C12 quick VF_C12_Compact t=2..4 n=2
 //vf:job C12 quick VF_C12_Compact t=6..7 n=2
@@ -172,6 +175,38 @@ func VF_C12_DumpRoundTrip() {
 		vfAssert(vfObjEqual(obj, back), "value does not round-trip through EncodeDump/DecodeDump")
 	}
 	vfAssertTwin(err != nil, "twin")
+}
+
+// a payload stays what it was while later values are serialised and decoded (batches of
+// payloads are kept by the callers: restore pipelines, BinEntry conversion)
+func VF_C12_Retained() {
+	n := vfParam("n", 1)
+	obj1 := vfObject(vfParam("kind", 0), n)
+	p1, err := EncodeDump(obj1)
+	vfAssert(err == nil, "EncodeDump failed")
+	obj2 := vfObject(vfParam("kind2", 0), n)
+	p2, err2 := EncodeDump(obj2)
+	vfAssert(err2 == nil, "EncodeDump failed")
+	if err != nil || err2 != nil {
+		return
+	}
+	keep := append([]byte{}, p1...)
+	// a third serialisation through the entry conversion
+	oe := &ObjEntry{DB: 1, Key: []byte("k"), Value: obj2}
+	be, err3 := oe.BinEntry()
+	vfAssert(err3 == nil, "BinEntry failed")
+	vfAssert(vfBytesEq2(keep, p1), "an emitted payload changed when a later value was serialised")
+	back1, e1 := DecodeDump(p1)
+	back2, e2 := DecodeDump(p2)
+	vfAssert(e1 == nil && e2 == nil, "DecodeDump rejected a payload after a later value was serialised")
+	if e1 != nil || e2 != nil || err3 != nil {
+		return
+	}
+	vfAssert(vfObjEqual(obj1, back1), "first value does not round-trip once a second one has been serialised")
+	vfAssert(vfObjEqual(obj2, back2), "second value does not round-trip")
+	back3, e3 := DecodeDump(be.Value)
+	vfAssert(e3 == nil && vfObjEqual(obj2, back3), "entry conversion payload does not round-trip")
+	vfAssertTwin(len(p1) == 0, "twin")
 }
 
 // strings at the integer-encoding boundaries: digits, signs, leading zeros, spaces
